@@ -20,10 +20,10 @@ import (
 // ---- C15: Bifurcation accepts a soft-failing head iff a verifiable path exists; terminates ----
 
 type c15P struct {
-	S      uint64 `json:"s"`      // subjective (store) head
-	D      uint64 `json:"d"`      // distance to the candidate
-	R      uint64 `json:"r"`      // trust range
-	Cand   string `json:"cand"`   // canonical | forged-rightlink | forged-wronglink | signed-relink
+	S      uint64 `json:"s"`       // subjective (store) head
+	D      uint64 `json:"d"`       // distance to the candidate
+	R      uint64 `json:"r"`       // trust range
+	Cand   string `json:"cand"`    // canonical | forged-rightlink | forged-wronglink | signed-relink
 	FailAt int    `json:"fail_at"` // index of the getter.GetByHeight call that fails (-1 none)
 }
 
@@ -102,7 +102,7 @@ func c15Run(c *mon.Case, p c15P) {
 			c.Violation("start-fails", fmt.Sprint(err), nil)
 			return
 		}
-		quiesce()
+		w.settle()
 		pre := len(w.g.Calls("byheight"))
 
 		var cand H
@@ -176,7 +176,7 @@ func c15Run(c *mon.Case, p c15P) {
 			var ve *header.VerifyError
 			_ = errors.As(verr, &ve)
 		}
-		quiesce()
+		w.settle()
 		if p.D <= 2000 && verr == nil {
 			// the target must be reached by the sync loop
 			if h, err := w.st.Head(context.Background()); err != nil || h.Height() != p.S+p.D {
